@@ -144,8 +144,16 @@ func (c *ExprCtx) forall(src string) string {
 		h := c.intOf(c.evalSrc(hi), 64)
 		guard = mkAnd(app("bvsle", l, sym), app("bvslt", sym, h))
 	}
+	before := len(c.st.pc)
 	b := mkImp(guard, n.form(body))
 	if c.assume {
+		// type invariants of values read under the binder mention the bound
+		// variable: keep them inside the quantifier
+		extra := append([]string(nil), c.st.pc[before:]...)
+		c.st.pc = c.st.pc[:before]
+		if len(extra) > 0 {
+			b = mkAnd(append(extra, b)...)
+		}
 		return fmt.Sprintf("(forall ((%s (_ BitVec 64))) %s)", sym, b)
 	}
 	return b
@@ -825,6 +833,15 @@ func (c *ExprCtx) call(x *ast.CallExpr) TV {
 			return TV{V: VOpaque{T: c.w.foldInt(constBV(a.C, 64), 64)}}
 		}
 		return TV{V: VOpaque{T: c.w.fold(c.st, a.V)}}
+	case "ud":
+		// ud(x): fold of x, through one pointer (an encoder encodes the pointee)
+		a := c.eval(x.Args[0])
+		if p, ok := a.V.(VPtr); ok {
+			if v := c.w.load(c.st, p); v != nil {
+				return TV{V: VOpaque{T: c.w.fold(c.st, v)}}
+			}
+		}
+		return TV{V: VOpaque{T: c.w.fold(c.st, a.V)}}
 	case "unwrap":
 		// unwrap(x): the dynamic value of interface x when it is known on this path
 		a := c.eval(x.Args[0])
@@ -851,6 +868,10 @@ func (c *ExprCtx) call(x *ast.CallExpr) TV {
 		f := c.w.st.declare("dyn_type", []string{sortU}, sortU)
 		tc := c.w.st.declare("type_"+sanitize(tn), nil, sortU)
 		return TV{V: VBool{T: mkEq(app(f, iv.U), tc)}, T: boolT}
+	}
+	if c.cs.GhostFields[name] && len(x.Args) == 1 {
+		a := c.eval(x.Args[0])
+		return TV{V: VOpaque{T: c.w.ghostGet(c.st, name, c.w.fold(c.st, a.V))}}
 	}
 	if sf, ok := c.cs.Funcs[name]; ok {
 		if len(sf.Args) != len(x.Args) {
